@@ -926,6 +926,12 @@ func exportedServicesForPeerTxn(
 			return fmt.Errorf("failed gateway lookup for %q: %w", sn.Name, err)
 		}
 		ws.Add(svcGateways.WatchCh())
+		// Whether a terminating gateway fronts the service decides if it is
+		// exported as a mesh service, so the gateway associations are part of
+		// what this query reads.
+		if idx := maxIndexTxn(tx, tableGatewayServices); idx > maxIdx {
+			maxIdx = idx
+		}
 		for svc := svcGateways.Next(); svc != nil; svc = svcGateways.Next() {
 			gs, ok := svc.(*structs.GatewayService)
 			if !ok {
